@@ -94,6 +94,12 @@ def check_text(ctx, text, consts, stream, m):
     if out[0] == "other":
         return Violation("parse() %s on %r" % ("did not terminate within the limit" if out[1] == "Timeout" else
                                                 "raised %s (not RTAMTException): %s" % (out[1], out[2]), text), rep, stream=stream), None
+    if has_initialiser(text) and not (m[0] == "rtamt" and m[1].startswith("lex")):
+        # a declaration with an initial value: the model reads the longest expression after '=' (ANTLR may end it earlier when
+        # only that leads to a parse: `float v = a` + assertion `-b > 0`) and does not apply the side conditions to it - neither
+        # its acceptance nor its rejection is the language's here; what remains is the model-free part above (and the lexer)
+        ctx.count("initialiser:judged-without-model")
+        return None, None
     if out[0] == "ok" and m[0] != "ok":
         return Violation("parse() accepts %r, which is not in the language (model: %s)" % (text, m[1]), rep, stream=stream), None
     if out[0] == "rtamt" and m[0] == "ok" and "Ambiguity ERROR" in out[1]:
@@ -110,6 +116,14 @@ def check_text(ctx, text, consts, stream, m):
             return None, Violation("spec_print() of %r is %r, the model's parse tree prints %r" % (text, out[1], want), rep,
                                    failing_input=False, stream=stream + "/print")
     return None, None
+
+
+INIT_RE = re.compile(r"(\bconst\s+)?\b(?:float|int|long|complex)\s+[A-Za-z_][\w.]*\s*=(?!=)")
+
+
+def has_initialiser(text):
+    """A variable declaration with an initial value (`[input|output] float v = ...`; not `const float k = literal`)."""
+    return any(m.group(1) is None for m in INIT_RE.finditer(text))
 
 
 IV_RE = re.compile(r"\[([^\[\],:]+)([,:])([^\[\],:]+)\]")
